@@ -91,6 +91,9 @@ pub enum VOp {
     Append(Src, usize),
     Drain(usize, usize, Take),
     Splice(usize, usize, usize, Take),
+    /// splice whose replacement iterator reports an honest lower bound of min(lower, remaining): the drop path moves
+    /// the tail by the bound first, then collects the rest
+    SpliceHint(usize, usize, usize, usize),
     /// predicate: bit i of mask set => element i selected
     ExtractIf(u8, Take),
     Retain(u8),
@@ -340,6 +343,14 @@ pub fn model_apply(m: &mut Vec<u32>, kind: Kind, op: &VOp, fixed_cap: usize) -> 
             let d: Vec<u32> = m.splice(s..e, repl).collect();
             Ret::vals(take_model(d, take))
         }
+        VOp::SpliceHint(s, e, c, _) => {
+            if kind != Kind::BumpVec {
+                return None;
+            }
+            let repl: Vec<u32> = (0..c as u32).map(|i| 800 + i).collect();
+            let d: Vec<u32> = m.splice(s..e, repl).collect();
+            Ret::vals(d)
+        }
         VOp::ExtractIf(mask, take) => {
             if rev {
                 return None;
@@ -467,11 +478,16 @@ pub struct TickIter<T: ElemT> {
     next: u32,
     end: u32,
     over: bool,
+    lower: usize,
     _t: std::marker::PhantomData<T>,
 }
 impl<T: ElemT> TickIter<T> {
     pub fn new(start: u32, n: usize, over: bool) -> Self {
-        TickIter { next: start, end: start + n as u32, over, _t: std::marker::PhantomData }
+        TickIter { next: start, end: start + n as u32, over, lower: 0, _t: std::marker::PhantomData }
+    }
+    /// honest lower bound min(lower, remaining), no upper bound
+    pub fn with_lower(start: u32, n: usize, lower: usize) -> Self {
+        TickIter { next: start, end: start + n as u32, over: false, lower, _t: std::marker::PhantomData }
     }
 }
 impl<T: ElemT> Iterator for TickIter<T> {
@@ -486,7 +502,7 @@ impl<T: ElemT> Iterator for TickIter<T> {
     }
     fn size_hint(&self) -> (usize, Option<usize>) {
         let n = (self.end - self.next) as usize;
-        if self.over { (n + 3, Some(n + 3)) } else { (0, None) }
+        if self.over { (n + 3, Some(n + 3)) } else { (self.lower.min(n), None) }
     }
 }
 
@@ -799,6 +815,12 @@ where
                     std::mem::forget(it);
                     return Some(Ret { vals: out, flag: Some(true) });
                 }
+                drop(it);
+                Some(Ret::vals(out))
+            }
+            VOp::SpliceHint(s, e, c, lower) => {
+                let sp = self.splice(s..e, TickIter::<T>::with_lower(800, c, lower));
+                let (out, it) = take_from(sp, Take::All);
                 drop(it);
                 Some(Ret::vals(out))
             }
